@@ -329,8 +329,11 @@ func (c *cluster) monitor(key watchKey, l UpdateListener) error {
 
 	c.addListener(key, l)
 	rev := c.load(cli, key)
-	c.watchGroup.Run(func() {
-		c.watch(cli, key, rev)
+	c.lock.RLock()
+	done, group := c.done, c.watchGroup
+	c.lock.RUnlock()
+	group.Run(func() {
+		c.watchUntil(cli, key, rev, done)
 	})
 
 	return nil
@@ -360,8 +363,10 @@ func (c *cluster) reload(cli EtcdClient) {
 		}
 	}
 
-	c.done = make(chan lang.PlaceholderType)
-	c.watchGroup = threading.NewRoutineGroup()
+	done := make(chan lang.PlaceholderType)
+	group := threading.NewRoutineGroup()
+	c.done = done
+	c.watchGroup = group
 	c.lock.Unlock()
 
 	// wait for the previous watches without holding the lock, a watch goroutine
@@ -372,16 +377,33 @@ func (c *cluster) reload(cli EtcdClient) {
 	// start new watches
 	for _, key := range keys {
 		k := key
-		c.watchGroup.Run(func() {
+		group.Run(func() {
 			rev := c.load(cli, k)
-			c.watch(cli, k, rev)
+			c.watchUntil(cli, k, rev, done)
 		})
 	}
 }
 
 func (c *cluster) watch(cli EtcdClient, key watchKey, rev int64) {
+	c.lock.RLock()
+	done := c.done
+	c.lock.RUnlock()
+	c.watchUntil(cli, key, rev, done)
+}
+
+// watchUntil watches the key until done is closed, done is the channel of the watch
+// generation that the goroutine belongs to, a goroutine that was still loading when
+// reload closed it must not go on watching with the channel of the next generation,
+// otherwise reload waits for it forever and never starts the new watches.
+func (c *cluster) watchUntil(cli EtcdClient, key watchKey, rev int64, done <-chan lang.PlaceholderType) {
 	for {
-		err := c.watchStream(cli, key, rev)
+		select {
+		case <-done:
+			return
+		default:
+		}
+
+		err := c.watchStream(cli, key, rev, done)
 		if err == nil {
 			return
 		}
@@ -396,7 +418,7 @@ func (c *cluster) watch(cli EtcdClient, key watchKey, rev int64) {
 	}
 }
 
-func (c *cluster) watchStream(cli EtcdClient, key watchKey, rev int64) error {
+func (c *cluster) watchStream(cli EtcdClient, key watchKey, rev int64, done <-chan lang.PlaceholderType) error {
 	ctx, rch := c.setupWatch(cli, key, rev)
 
 	for {
@@ -415,7 +437,7 @@ func (c *cluster) watchStream(cli EtcdClient, key watchKey, rev int64) error {
 			c.handleWatchEvents(ctx, key, wresp.Events)
 		case <-ctx.Done():
 			return nil
-		case <-c.done:
+		case <-done:
 			return nil
 		}
 	}
